@@ -76,7 +76,8 @@ type (
 	}
 )
 
-func (v *NumVal) IsInt() bool { return v.V == math.Trunc(v.V) }
+// IsInt 整数且能用 int64 精确表示 (超出范围的整数 Int() 会溢出)
+func (v *NumVal) IsInt() bool { return v.V == math.Trunc(v.V) && math.Abs(v.V) < 1<<63 }
 func (v *NumVal) Int() int64  { return int64(v.V) }
 
 func (v *Val) Bool() *BoolVal   { return (*BoolVal)(unsafe.Pointer(v)) }
